@@ -157,6 +157,11 @@ def shadow_express_headers(wd):
     for f in os.listdir(src):
         if f.endswith('.h'):
             shutil.copy(os.path.join(src, f), os.path.join(e, f))
+    # include/exppp/*.h reach the express headers through "../express/...": copy them too so that they resolve to the copies
+    xs = os.path.join(REPO, 'include', 'exppp'); xd = os.path.join(d, 'exppp'); os.makedirs(xd, exist_ok=True)
+    for f in os.listdir(xs):
+        if f.endswith('.h'):
+            shutil.copy(os.path.join(xs, f), os.path.join(xd, f))
     p = os.path.join(e, 'scope.h'); s = open(p).read()
     m = re.search(r'(struct Scope_ \{.*?)\bunion(\s*\{.*?\}\s*u;)', s, flags=re.S)
     if not m:
@@ -171,7 +176,7 @@ def build_goto_c(h, tier, wd, extra_defs, tag):
     sh = []
     if h.shadow_scope:
         d = shadow_express_headers(wd)
-        sh = ['-I' + d, '-I' + os.path.join(d, 'express')]
+        sh = ['-I' + d, '-I' + os.path.join(d, 'express'), '-I' + os.path.join(d, 'exppp')]
     flags = sh + [std, '-DNDEBUG', '-DVERIF_CBMC=1', '-w', '-I' + os.path.join(LIB, 'cshadow')] + repo_includes() + ['-I' + REPO, '-I' + LIB, '-I' + os.path.dirname(vpath(h.harness))] + h.cflags
     defs = defflags(dict(h.tier_defs(tier), **extra_defs))
     objs = []
